@@ -56,6 +56,9 @@ def fmt_item(it):
 
 
 def fmt_dim(d):
+    if d.dtype is float:
+        # items that are not whole numbers (half years): labels only, shown as texts of their exact value
+        return f"D:{d.letter}:{d.name}:n:{','.join('sH' + fmt_num(float(i)) for i in d.items)}"
     ty = {int: "i", str: "s", None: "n"}.get(d.dtype, "?")
     return f"D:{d.letter}:{d.name}:{ty}:{','.join(fmt_item(i) for i in d.items)}"
 
